@@ -223,7 +223,9 @@ func (p *c06Proc) measure(fam string, entry int, data []byte) c06Res {
 	if r.err != nil {
 		_ = p.cmd.Wait()
 		es := p.errb.String()
-		oom := strings.Contains(es, "out of memory") || strings.Contains(es, "cannot allocate memory") || strings.Contains(es, "makeslice: len out of range") && strings.Contains(es, "fatal error")
+		oom := strings.Contains(es, "out of memory") || strings.Contains(es, "cannot allocate memory") || strings.Contains(es, "makeslice: len out of range") && strings.Contains(es, "fatal error") ||
+			// unbounded recursion ends the same way: the runtime gives up, nothing can recover
+			strings.Contains(es, "stack overflow") || strings.Contains(es, "goroutine stack exceeds")
 		return c06Res{Died: true, OOM: oom, Stderr: truncate(es, 1500)}
 	}
 	var res c06Res
@@ -335,7 +337,7 @@ func (pl *c06Pool) judge(fam string, data []byte) (violation string, entry strin
 		if r.Died {
 			pl.drop()
 			if r.OOM {
-				return fmt.Sprintf("decoding a %d-byte input kills the process with an unrecoverable out-of-memory error (address-space limit %d MiB):\n%s", len(data), c06Rlimit>>20, firstLines(r.Stderr, 6)), e.Name, "", r
+				return fmt.Sprintf("decoding a %d-byte input kills the process with an unrecoverable out-of-memory / stack-overflow error (address-space limit %d MiB):\n%s", len(data), c06Rlimit>>20, firstLines(r.Stderr, 6)), e.Name, "", r
 			}
 			if r.TimedOut {
 				// confirm in three fresh workers
@@ -650,6 +652,42 @@ func jsonNumberBombs() []c06Placed {
 				for _, f := range fams {
 					r = append(r, c06Placed{f, fmt.Sprintf("%s/%s=number#%d", base.name, sl.path, ni), []byte(c.String())})
 				}
+			}
+		}
+	}
+	return r
+}
+
+// jsonNearSyntaxDocs: what JSON does NOT have but hand-written or generated
+// files often carry - line and block comments (terminated or running into the
+// end of the input), a byte order mark, trailing commas, single quotes, shell
+// comments, NaN / Infinity, concatenated documents - before, inside and after
+// the claims documents, and alone.
+func jsonNearSyntaxDocs() []c06Placed {
+	frags := []string{"//", "// x", "//\n", "// x\n", "/*", "/* x", "/* x */", "/**/", "/*/", "/", "#", "# x\n", "<!--", "<!-- x -->", "--", ";", "\ufeff", "\xef\xbb\xbf",
+		",", ",,", "'a'", "NaN", "Infinity", "-Infinity", "undefined", "\\", "\\u", "\x00", "{}", "[]", "null", "\r", "\t\n ", "/*" + strings.Repeat("*", 5000), strings.Repeat("/", 5000), strings.Repeat("//", 2500), "//" + strings.Repeat(" ", 5000)}
+	var r []c06Placed
+	for _, f := range frags {
+		r = append(r, c06Placed{"json", fmt.Sprintf("near-syntax/alone/%q", truncate(f, 12)), []byte(f)})
+		r = append(r, c06Placed{"enc-json", fmt.Sprintf("near-syntax/alone/%q", truncate(f, 12)), []byte(f)})
+	}
+	for _, base := range c05JSONBases() {
+		fam := "json"
+		if base.name == "ShapeFlat" {
+			fam = "enc-json"
+		}
+		doc := string(base.doc)
+		first := strings.IndexByte(doc, ',')
+		for _, f := range frags {
+			variants := []string{f + doc, doc + f, doc + " " + f, f + "\n" + doc}
+			if first > 0 {
+				variants = append(variants, doc[:first]+f+doc[first:], doc[:first+1]+f+doc[first+1:])
+			}
+			if i := strings.LastIndexByte(doc, '}'); i > 0 {
+				variants = append(variants, doc[:i]+f+doc[i:])
+			}
+			for vi, v := range variants {
+				r = append(r, c06Placed{fam, fmt.Sprintf("near-syntax/%s/%q/#%d", base.name, truncate(f, 12), vi), []byte(v)})
 			}
 		}
 	}
@@ -1032,9 +1070,9 @@ func c06Report(t testing.TB, pl *c06Pool, v string, in c06In) {
 }
 
 func TestC06_Bombs(t *testing.T) {
-	st := NewStats("C06", "TestC06_Bombs", "enumeration, measured in an address-space-limited single-goroutine worker process (TotalAlloc delta and wall time per input): header bombs = every major type 2..6 x additional-info 24..27 x declared length in {0x80,0xff,2^8,2^16-1,2^16,2^24,2^31,2^32-1,2^32,2^63,2^64-1} x 0..16 following bytes, placed at top level and at every structural position of a valid token of both profiles (5 claim values, a component field, an unknown key's value, COSE payload / protected / unprotected / signature / tag content / protected-header content / unprotected-header value); declared lengths that wrap around when converted or added (2^64-k for k=1..16 and others, 2^63+-k, 2^32-k, 2^31+-k) as value / key / element of definite and indefinite-length containers; claims documents with two members changed at once (one null / empty, one of a wrong type); documents with thousands of members that take an error path of the dispatching decoders (unregistered / double / wrong-typed profile, wrong-typed claim); JSON numbers with exponents up to 10^9 and 60000-digit spellings in every numeric member; nesting of arrays, maps, tags, indefinite containers to depth 8..32000 and JSON arrays/objects to depth 8..65536 (closed and unclosed, top level and inside claims); 4 KiB..60 KiB strings, 1000..16000-key maps (distinct and duplicate keys), 700-component and 60000-null component lists; every 1- and 2-byte input that starts with a tag head and valid documents wrapped 1..3 deep in 42 tag numbers of every head width (termination of the hand-written tag skipping). Every input goes to every entry point of its family (COSE, claims CBOR incl. per-type unmarshal and extension types, claims JSON, populate helpers). Violation: a call allocates more than 1 MiB + 1 KiB per input byte, or takes > 5 s (re-measured in 3 fresh processes), or the worker dies with an out-of-memory fatal error. Non-trivial = declares more data than it carries, or nests >= 8 deep, or >= 4 KiB; distinct = family + input")
+	st := NewStats("C06", "TestC06_Bombs", "enumeration, measured in an address-space-limited single-goroutine worker process (TotalAlloc delta and wall time per input): header bombs = every major type 2..6 x additional-info 24..27 x declared length in {0x80,0xff,2^8,2^16-1,2^16,2^24,2^31,2^32-1,2^32,2^63,2^64-1} x 0..16 following bytes, placed at top level and at every structural position of a valid token of both profiles (5 claim values, a component field, an unknown key's value, COSE payload / protected / unprotected / signature / tag content / protected-header content / unprotected-header value); declared lengths that wrap around when converted or added (2^64-k for k=1..16 and others, 2^63+-k, 2^32-k, 2^31+-k) as value / key / element of definite and indefinite-length containers; claims documents with two members changed at once (one null / empty, one of a wrong type); documents with thousands of members that take an error path of the dispatching decoders (unregistered / double / wrong-typed profile, wrong-typed claim); JSON numbers with exponents up to 10^9 and 60000-digit spellings in every numeric member; what JSON does not have (line / block comments terminated or running into the end of the input, byte order marks, trailing commas, NaN ...) before, inside and after the claims documents and alone; nesting of arrays, maps, tags, indefinite containers to depth 8..32000 and JSON arrays/objects to depth 8..65536 (closed and unclosed, top level and inside claims); 4 KiB..60 KiB strings, 1000..16000-key maps (distinct and duplicate keys), 700-component and 60000-null component lists; every 1- and 2-byte input that starts with a tag head and valid documents wrapped 1..3 deep in 42 tag numbers of every head width (termination of the hand-written tag skipping). Every input goes to every entry point of its family (COSE, claims CBOR incl. per-type unmarshal and extension types, claims JSON, populate helpers). Violation: a call allocates more than 1 MiB + 1 KiB per input byte, or takes > 5 s (re-measured in 3 fresh processes), or the worker dies with an out-of-memory fatal error. Non-trivial = declares more data than it carries, or nests >= 8 deep, or >= 4 KiB; distinct = family + input")
 	st.Exhaustive = true
-	st.Require = []string{"bomb", "wrap-around", "member-pair", "json-number", "many-members-error-path", "nesting", "big", "tag-wrapped", "error-path", "family=cbor", "family=cose", "family=json", "family=enc-cbor", "family=enc-json"}
+	st.Require = []string{"bomb", "wrap-around", "member-pair", "json-number", "many-members-error-path", "json-near-syntax", "nesting", "big", "tag-wrapped", "error-path", "family=cbor", "family=cose", "family=json", "family=enc-cbor", "family=enc-json"}
 	defer st.Flush(t)
 	pl := &c06Pool{}
 	defer pl.drop()
@@ -1065,6 +1103,9 @@ func TestC06_Bombs(t *testing.T) {
 	}
 	for _, p := range manyMemberErrorDocs() {
 		run(p, "many-members-error-path")
+	}
+	for _, p := range jsonNearSyntaxDocs() {
+		run(p, "json-near-syntax")
 	}
 	for _, p := range nestings() {
 		run(p, "nesting")
